@@ -26,9 +26,7 @@ theorem header_of_symbols (d : Document) (o : Opts) (m : Mode) (vc : Bool) (out 
     · contradiction
     · split at h
       · contradiction
-      · split at h
-        · contradiction
-        · injection h with h; subst h; exact ⟨rfl, rfl⟩
+      · injection h with h; subst h; exact ⟨rfl, rfl⟩
 
 /-- each recorded symbol is declared once: the list has no repetition, and a name is recorded
 iff the script contains an unconditional plain assignment (no `PROVIDE`, no `HIDDEN`) written
